@@ -155,15 +155,18 @@ def check_proofs(prop, theorems):
 
 
 # ------------------------------------------------------------------ L1 runs
-def run_lines(exe, lines, timeout=600, cwd=None):
+def run_lines(exe, lines, timeout=600, cwd=None, env=None):
     """Feed case lines to an executable that answers one line per case. Tolerates crashes: the case on which
     the process died gets 'CRASH <rc>' and the rest is retried in a fresh process."""
     results = []
     i = 0
     while i < len(lines):
         chunk = lines[i:]
+        e = dict(os.environ)
+        if env:
+            e.update(env)
         p = subprocess.run(["setsid", exe], input=("\n".join(chunk) + "\n").encode(), capture_output=True,
-                           timeout=timeout, cwd=cwd)
+                           timeout=timeout, cwd=cwd, env=e)
         out = p.stdout.decode(errors="replace").splitlines()
         if len(out) >= len(chunk):
             results += out[:len(chunk)]
@@ -174,10 +177,13 @@ def run_lines(exe, lines, timeout=600, cwd=None):
     return results
 
 
+SAN_ENV = {"ASAN_OPTIONS": "exitcode=99:detect_leaks=0:abort_on_error=0", "UBSAN_OPTIONS": "exitcode=99:halt_on_error=1:print_stacktrace=1"}
+
+
 def run_both(cases, flavour="plain"):
     d = build_impl(flavour)
     m = build_model()
-    impl = run_lines(os.path.join(d, "l1_harness"), cases)
+    impl = run_lines(os.path.join(d, "l1_harness"), cases, env=SAN_ENV if flavour == "asan" else None)
     model = run_lines(m, cases)
     return impl, model
 
